@@ -3,7 +3,7 @@ use crate::cnfgen::*;
 use crate::common::*;
 use crate::rng::Rng;
 use rsdd::constants::primes;
-use rsdd::repr::{Literal, PartialModel, VarLabel, WmcParams};
+use rsdd::repr::{Literal, PartialModel, VarLabel, VarSet, WmcParams};
 use rsdd::util::semirings::FiniteField;
 use std::collections::HashMap;
 
@@ -18,8 +18,99 @@ fn clauses_str(cs: &[Vec<Literal>]) -> String {
     cs.iter().map(|c| signed(c)).collect::<Vec<_>>().join(";")
 }
 
+fn lits_str<I: Iterator<Item = Literal>>(it: I) -> String {
+    it.map(|l| format!("{}{}", if l.polarity() { 'p' } else { 'n' }, l.label().value())).collect::<Vec<_>>().join(".")
+}
+
+fn vs_str(s: &VarSet) -> String {
+    s.iter().map(|v| v.value().to_string()).collect::<Vec<_>>().join(".")
+}
+
+/// `kind=book`: a history of updates of two partial models and two variable sets, every
+/// observer printed after every update (C15: "partial-model and variable-set bookkeeping")
+fn book_line(rng: &mut Rng, maxvars: usize, maxops: usize) -> String {
+    let n = rng.range(1, maxvars as u64) as usize;
+    let nsteps = rng.range(2, maxops as u64) as usize;
+    // commands: which object (0/1), which operation, variable, value; overwrites of an already
+    // assigned variable (with and without a change of value) are frequent on purpose
+    let cmds: Vec<(u64, u64, usize, bool)> =
+        (0..nsteps).map(|_| (rng.below(2), rng.below(8), rng.below(n as u64) as usize, rng.coin())).collect();
+    let head = format!(
+        "cnf kind=book n={} cmds={}",
+        n,
+        cmds.iter().map(|(o, k, v, b)| format!("{}.{}.{}.{}", o, k, v, *b as u8)).collect::<Vec<_>>().join(",")
+    );
+    let r = guarded(|| {
+        let mut pm = [PartialModel::new(n), PartialModel::new(n)];
+        let mut vs = [VarSet::new(), VarSet::new_with_num_vars(n)];
+        let mut obs = Vec::new();
+        for (o, k, v, b) in cmds.iter() {
+            let (o, l) = (*o as usize, VarLabel::new_usize(*v));
+            match k {
+                0 | 1 | 2 => pm[o].set(l, *b),
+                3 => pm[o].unset(l),
+                4 | 5 => vs[o].insert(l),
+                6 => vs[o].remove(l),
+                _ => {
+                    let other = vs[1 - o].clone();
+                    vs[o].union_with(&other)
+                }
+            }
+            let get = |m: &PartialModel| -> String {
+                (0..n)
+                    .map(|x| match m.get(VarLabel::new_usize(x)) {
+                        None => 'n',
+                        Some(true) => 't',
+                        Some(false) => 'f',
+                    })
+                    .collect()
+            };
+            let isset = |m: &PartialModel| -> String { (0..n).map(|x| if m.is_set(VarLabel::new_usize(x)) { '1' } else { '0' }).collect() };
+            let lit = Literal::new(l, *b);
+            let rebuilt = |m: &PartialModel| -> bool {
+                let a: Vec<Option<bool>> = (0..n).map(|x| m.get(VarLabel::new_usize(x))).collect();
+                PartialModel::from_assignments(&a) == *m
+            };
+            obs.push(format!(
+                "{}/{}/{}/{}/{}/{}/{}/{}{}{}{}/{}{}/{}/{}/{}/{}/{}/{}/{}/{}/{}{}{}{}",
+                get(&pm[0]),
+                get(&pm[1]),
+                isset(&pm[0]),
+                lits_str(pm[0].assignment_iter()),
+                lits_str(pm[1].assignment_iter()),
+                lits_str(pm[0].difference(&pm[1])),
+                lits_str(pm[1].difference(&pm[0])),
+                pm[o].lit_implied(lit) as u8,
+                pm[o].lit_neg_implied(lit) as u8,
+                lit.implies_true(&lit.negated()) as u8,
+                lit.implies_false(&lit.negated()) as u8,
+                rebuilt(&pm[0]) as u8,
+                rebuilt(&pm[1]) as u8,
+                vs_str(&vs[0]),
+                vs_str(&vs[1]),
+                vs_str(&vs[0].union(&vs[1])),
+                vs_str(&vs[0].minus(&vs[1])),
+                vs_str(&vs[0].intersect_varset(&vs[1])),
+                vs[0].difference(&vs[1]).map(|v| v.value().to_string()).collect::<Vec<_>>().join("."),
+                vs[0].intersect(&vs[1]).map(|v| v.to_string()).collect::<Vec<_>>().join("."),
+                vs[0].len(),
+                vs[0].is_empty() as u8,
+                vs[1].contains(l) as u8,
+                (vs[0] == vs[1]) as u8,
+                (pm[0] == pm[1]) as u8
+            ));
+        }
+        format!("obs={}", obs.join(","))
+    });
+    format!("{} => {}", head, r.unwrap_or_else(|e| e))
+}
+
 pub fn cnf_lines(rng: &mut Rng, idx: u64, maxvars: usize, maxops: usize) -> Vec<String> {
     let mut out = Vec::new();
+    if idx % 5 == 4 {
+        out.push(book_line(rng, maxvars, maxops));
+        return out;
+    }
     let raw = gen_cnf(rng, maxvars, 2 * maxvars, true);
     let cnf = to_cnf(&raw);
     let n = cnf.num_vars();
